@@ -73,6 +73,10 @@ def run_property(pid: str, tier: str = "quick", seed: int = 0, write_evidence: b
 
     # quick: the variants marked quick act as positive controls on the real tree; thorough: every variant of the property
     selftest.run(run, prog, seed, quick_only=(tier != "thorough"))
+    if tier == "thorough":
+        from geolint import sweep
+
+        sweep.run(run, prog, seed)
     if replay:
         with open(replay, encoding="utf-8") as fh:
             r = json.load(fh)
@@ -113,7 +117,8 @@ def check_c19(run: Run, prog: Program) -> None:
     dunder.rule_V1b(run, prog)
     run.floor("super() call sites", n1, 30)
     run.floor("operator presence obligations", n3, 50)
-    run.floor("dispatch table entries", n4, 20)
+    if not any(o.rule == "E3.T" and o.verdict == UNDECIDED for o in run.obligations):
+        run.floor("dispatch table entries", n4, 20)
     run.stats.update({"super_sites": n1, "direct_operator_returns": n2, "presence": n3, "table_entries": n4,
                       "dispatch_arms": n5, "index_set_constructions": n6})
 
@@ -237,7 +242,7 @@ def check_c18(run: Run, prog: Program) -> None:
     )
     n = intersect.rule_F(run, prog)
     run.floor("intersect implementations", n, 3)
-    run.floor("filter obligations", sum(1 for o in run.obligations if o.rule == "E10.F1"), 4)
+    run.floor("filter obligations", sum(1 for o in run.obligations if o.rule == "E10.F1"), 2)
     run.stats["intersect_methods"] = n
 
 
@@ -444,7 +449,7 @@ def check_c03(run: Run, prog: Program) -> None:
     n1 = homog.add_sinks(run, prog, {"E5.order", "E5.eq", "E5.object"})
     n2 = homog.add_returns(run, prog, lambda f: True, extra_names={"crossratio", "_point_dist"})
     n3 = homog.rule_eq_dunder(run, prog)
-    run.floor("comparison / construction sinks on coordinate data", n1, 40)
+    run.floor("comparison / construction sinks on coordinate data", n1, 30)
     run.floor("numeric return paths", n2, 10)
     run.floor("__eq__ resolutions", n3, 15)
     run.stats.update({"sinks": n1, "numeric_returns": n2, "eq_resolutions": n3})
@@ -471,6 +476,6 @@ def check_c17(run: Run, prog: Program) -> None:
     poly_names = {c.name for c in prog.subclasses(poly)}
     n1 = homog.add_sinks(run, prog, {"E5.affine"}, only_fn=lambda s: s.split(".")[0] in poly_names)
     n2 = homog.add_returns(run, prog, in_poly)
-    run.floor("measure return paths", n2, 5)
+    run.floor("measure return paths", n2, 4)
     run.floor("point-valued vertex statistics", n1, 1)
     run.stats.update({"affine_sinks": n1, "measure_returns": n2})
